@@ -113,6 +113,17 @@ FACTORIES = [
     ('sets', lambda: [frozenset(['b', 'a']), {3, 1, 2}, set()]),
     ('unsorted-dict', lambda: {'z': 1, 'a': 2, 'm': {'y': 1, 'b': 2}, 'k': 0}),
     ('floats', lambda: [float('inf'), -0.0, float('nan'), 1e300]),
+    # values that compare (and hash) equal but must print differently: a cache keyed by == would mix them up
+    ('zero-float', lambda: 0.0),
+    ('neg-zero-float', lambda: -0.0),
+    ('zero-int', lambda: 0),
+    ('false', lambda: False),
+    ('one-int-in-list', lambda: [1, 2]),
+    ('one-float-in-list', lambda: [1.0, 2.0]),
+    ('true-in-list', lambda: [True, 2]),
+    ('equal-keys-dict', lambda: {1: 'int key', 'k': [0.0, -0.0, 0, False]}),
+    ('equal-keys-dict-float', lambda: {1.0: 'float key', 'k': [-0.0, 0.0, False, 0]}),
+    ('str-vs-bytes', lambda: ['ab', b'ab', ('ab',), (b'ab',)]),
     ('recursive', _rec),
     ('list-subclass', lambda: MyList([1, 2])),
     ('dict-subclass', lambda: MyDict(a=1)),
